@@ -317,6 +317,48 @@ def rule_PV(ctx, fm, P='C09.PV'):
                   ctx.where(fm, defs[0]), sample={'lower_bound': lb})
 
 
+def rule_flat_order(ctx, fm):
+    """Receiver positions given as arrays are flattened to a list of points,
+    sampled, and the responses are folded back into the shape of the input:
+    the flattening of the points in maps._points_from_grids and the folding
+    of the results (maps.interpolate, fields.get_receiver) must use the SAME
+    memory order, otherwise the value at [i, j] belongs to another position
+    (no longer the inner product with the point vector of position [i, j])."""
+    mm = ctx.repo.mod('emg3d/maps.py')
+    sites = []
+    pg = mm.func('_points_from_grids')
+    for c in ast.walk(pg):
+        if isinstance(c, ast.Call) and isinstance(c.func, ast.Attribute) \
+                and c.func.attr == 'reshape' and len(c.args) == 2 and \
+                ast.unparse(c.args[1]) == '3':
+            sites.append(('maps._points_from_grids', mm, c))
+    for mod_, fname in ((mm, 'interpolate'), (fm, 'get_receiver')):
+        f_ = mod_.func(fname)
+        for r in ast.walk(f_):
+            if isinstance(r, ast.Return) and r.value is not None:
+                for c in ast.walk(r.value):
+                    if isinstance(c, ast.Call) and isinstance(
+                            c.func, ast.Attribute) and c.func.attr == \
+                            'reshape':
+                        sites.append((f'{mod_.rel.split("/")[-1][:-3]}.'
+                                      f'{fname}', mod_, c))
+    ctx.anchor(len(sites) >= 4, 'flatten / fold sites of the sampling points')
+
+    def order(c):
+        for k in c.keywords:
+            if k.arg == 'order':
+                return ast.unparse(k.value).strip('\'"')
+        return 'C'
+    orders = {order(c) for _, _, c in sites}
+    for nm, mod_, c in sites:
+        ctx.check('C09.RC.order', f'{nm}: `{ast.unparse(c)[:50]}` order',
+                  len(orders) == 1, f'points are flattened / results folded '
+                  f'with order {order(c)!r} here, while the other sites use '
+                  f'{sorted(orders - {order(c)})}: for positions given as '
+                  'arrays with two or more dimensions the responses are '
+                  'assigned to the wrong positions', ctx.where(mod_, c))
+
+
 def rule_RC(ctx, fm):
     gr = fm.func('get_receiver')
     gp_ = au.params(gr)
@@ -594,6 +636,15 @@ def run(ctx):
     fm = ctx.repo.mod(FIELDS)
     rule_PV(ctx, fm)
     rule_RC(ctx, fm)
+    rule_flat_order(ctx, fm)
+    # the source vector / the sampled value are FUNCTIONS of (grid, position,
+    # field): nothing is remembered on the source, grid or field objects
+    # between calls (a remembered vector is scaled in place by the next
+    # call, so the second source field is no longer the transpose of the
+    # sampling) -- purity rule of C11, shared
+    from ..core.report import Renamed
+    from .c11 import rule_P4_inputs
+    rule_P4_inputs(Renamed(ctx, lambda r: 'C09.AS.pure'))
     rule_RO(ctx)
     rule_EC(ctx, fm)
     from .c07 import adjoint_sources
